@@ -400,6 +400,8 @@ def obj_array(x):
 def arr_kind_of(values):
     k = "i"
     for v in values:
+        if not is_sym(v) and not isinstance(v, (int, float, Fraction, bool, np.number)):
+            return "o"
         if is_sym(v):
             if z3.is_real(v):
                 return "f"
